@@ -10,6 +10,10 @@
 (*                        error / Invoke returned) and the bubble reached  *)
 (*                        quiescence (synctest.Wait())                     *)
 (*  end                   the channel was closed and quiescence reached    *)
+(*  stuck rpc ended returned   the scenario did not finish within 30 s of  *)
+(*                        real time (normally milliseconds); ended: the    *)
+(*                        RPC's context had ended; returned: the RPC call  *)
+(*                        had returned                                     *)
 (* I_DoneOnce: a Done callback never runs twice; when the RPC has finished *)
 (* every result with a Done callback that was obtained for it has had its  *)
 (* Done callback run.                                                      *)
@@ -38,9 +42,14 @@ RpcEnd == /\ Ev.ev = "rpc_end"
 End == /\ Ev.ev = "end"
        /\ Mark(\E i \in DOMAIN owner : Cnt(i) # 1, "I_DoneOnce_missing", l)
        /\ UNCHANGED <<owner, cnt>>
+\* the scenario was abandoned by the real-time watchdog: the RPC did not return.  If its context had ended
+\* (cancelled / deadline passed, whatever the cause) that violates "woken by context cancellation".
+Stuck == /\ Ev.ev = "stuck" /\ Mark(Ev.ended /\ ~Ev.returned, "I_Wake_ctx", l)
+         /\ Drift(~(Ev.ended /\ ~Ev.returned), "scenario abandoned by the watchdog", l)
+         /\ UNCHANGED <<owner, cnt>>
 Panic == /\ Ev.ev = "panic" /\ Mark(TRUE, "I_NoPanic", l) /\ UNCHANGED <<owner, cnt>>
 Other == /\ Ev.ev \in {"scn", "rpc_ret", "note", "srv"} /\ UNCHANGED <<owner, cnt>>
 
 Next == /\ l <= TLen /\ l' = l + 1 /\ Consumed(l)
-        /\ (Reset \/ Pick \/ Done \/ RpcEnd \/ End \/ Panic \/ Other)
+        /\ (Reset \/ Pick \/ Done \/ RpcEnd \/ End \/ Stuck \/ Panic \/ Other)
 ====
